@@ -259,7 +259,8 @@ BOUNDS = {
              'utf-16 x sources path/.gz/.bz2/MemorySource with default dialect; utf-8/path with delimiter in {, ; | TAB} x quotechar '
              'in {" \'} x 4 quoting modes (enumerated cell <=1 char); append sequences (bytes and content); pickle: typed cells from 14 '
              'representatives, ragged, 0..2 appends, 4 source kinds; json array/lines/arrays with JSON-typed cells',
-    'thorough': 'enumerated cell up to 3 characters (default dialect) / 2 characters (all dialects); 3 rows',
+    'thorough': 'enumerated cell up to 3 characters (default dialect, utf-8, path/.gz/memory), 2 characters otherwise; all dialects over 2 '
+                'ragged rows; pickle/json over 2 rows',
 }
 OUTSIDE = ('strings longer than the bound or with other characters; custom lineterminator / doublequote / escapechar (statement); '
            'QUOTE_NONE with cells containing special characters, QUOTE_NONNUMERIC with non-text cells (the csv module itself is not '
@@ -277,9 +278,10 @@ def jobs(tier):
     L = 2 if q else 3
     for enc in ('utf-8', 'latin-1', 'utf-16'):
         for kind in ('path', 'gz', 'bz2', 'memory'):
-            out.append(dict(name='csv/default/%s/%s/L<=%d' % (enc, kind, L), func='csv_roundtrip',
+            Lj = L if (q or (enc == 'utf-8' and kind in ('path', 'gz', 'memory'))) else 2
+            out.append(dict(name='csv/default/%s/%s/L<=%d' % (enc, kind, Lj), func='csv_roundtrip',
                             params=dict(fmt='csv', encoding=enc, kind=kind, delimiter=',', quotechar='"', quoting='minimal',
-                                        L=L, N=1, ragged=False), budget=B))
+                                        L=Lj, N=1, ragged=False), budget=B))
             if not q or kind == 'path' or enc == 'utf-8':
                 out.append(dict(name='csv/default/%s/%s/rows' % (enc, kind), func='csv_roundtrip',
                                 params=dict(fmt='csv', encoding=enc, kind=kind, delimiter=',', quotechar='"', quoting='minimal',
@@ -296,10 +298,10 @@ def jobs(tier):
             for quoting in QUOTING:
                 out.append(dict(name='csv/dialect/%r/%r/%s' % (delim, qc, quoting), func='csv_roundtrip',
                                 params=dict(fmt='csv', encoding='utf-8', kind='path', delimiter=delim, quotechar=qc,
-                                            quoting=quoting, L=1 if q else 2, N=1 if q else 2, ragged=True), budget=B))
+                                            quoting=quoting, L=1, N=1 if q else 2, ragged=True), budget=B))
     for kind in ('path', 'gz', 'bz2', 'memory'):
         out.append(dict(name='pickle/%s' % kind, func='pickle_roundtrip',
-                        params=dict(kind=kind, N=1 if q else 2, reps=None if kind == 'path' else 6), budget=B))
+                        params=dict(kind=kind, N=1 if q else 2, reps=(None if kind == 'path' else 6) if q else 6), budget=B))
         for form in ('array', 'lines', 'arrays'):
             out.append(dict(name='json-%s/%s' % (form, kind), func='json_roundtrip',
                             params=dict(form=form, kind=kind, L=1, N=1 if q else 2), budget=B))
